@@ -104,7 +104,8 @@ def discharge(axioms, ob: Obligation, tier: str = "quick", budget_ms: int = 1000
         # thorough: cross-validate with a second solver; disagreement is reported by the caller
         txt = _smt2(axioms, ob)
         v.qhash = hashlib.sha256(txt.encode()).hexdigest()[:16]
-        res, ms2 = _run_cli(["/usr/bin/cvc5", "--tlimit=%d" % (budget_ms * 2)], txt, budget_ms * 2 // 1000 + 1)
+        # second opinion with a short limit: only a definite `sat` (disagreement) matters
+        res, ms2 = _run_cli(["/usr/bin/cvc5", "--tlimit=4000"], txt, 6)
         if res == "sat":
             v.status, v.detail = "unknown", "z3 unsat but cvc5 sat: solver disagreement"
         else:
